@@ -77,6 +77,8 @@ impl Spec {
 }
 
 pub const META_OBJECT: &str = r#"{"name":"foreign","n":[1,2.5,null],"o":{"k":"v"}}"#;
+/// the same kind of object as another writer might pretty-print it: whitespace everywhere, escapes, exponents
+pub const META_SPACED: &str = "  {\n\t\"k\\u00e9\" : [ 1 , 2.50 , 1e2 , -0 , 1.0E-2 ] ,\r\n \"s\" : \"\\u0041\\n\\/\" , \"o\" : { } , \"t\" : true\n}\n \n";
 
 pub fn header_variant(hv: u8) -> SHeader {
     let mut h = SHeader::default();
@@ -216,6 +218,7 @@ pub fn build(s: &Spec) -> Foreign {
     let meta: Option<&[u8]> = match s.meta {
         0 => None,
         1 => Some(b"{}"),
+        3 => Some(META_SPACED.as_bytes()),
         _ => Some(META_OBJECT.as_bytes()),
     };
     encode_foreign(&root, &data, meta, s.comp, &lay, header_variant(s.hv))
@@ -224,6 +227,7 @@ pub fn build(s: &Spec) -> Foreign {
 pub fn expected_meta(s: &Spec) -> serde_json::Map<String, Value> {
     match s.meta {
         2 => serde_json::from_str::<Value>(META_OBJECT).unwrap().as_object().unwrap().clone(),
+        3 => serde_json::json!({"k\u{e9}": [1, 2.5, 100.0, -0.0, 0.01], "s": "A\n/", "o": {}, "t": true}).as_object().unwrap().clone(),
         _ => serde_json::Map::new(),
     }
 }
@@ -258,7 +262,7 @@ pub fn product(thorough: bool) -> Vec<Spec> {
                         if n == 0 && (shape != Shape::RootOnly || run != 1 || offs != Offs::Contiguous) {
                             continue;
                         }
-                        for meta in 0..3u8 {
+                        for meta in 0..4u8 {
                             for comp in 1..=4u8 {
                                 idx += 1;
                                 out.push(Spec { order: o, gap: g, root_gap: rg, shape, run, offs, n, meta, comp, base: [0u64, 1, 5, 1 << 40][(idx % 4) as usize], hv: (idx % 4) as u8, level_order: false });
